@@ -51,6 +51,7 @@ fn main() {
                         let expr = if head == "String" { Some("value.to_owned()".to_owned()) }
                             else if head == "bool" || head == "i32" || head == "i64" { Some("match value.parse() { Ok(v) => v, Err(_) => return false }".to_owned()) }
                             else if str_enum.contains(&head) { Some(format!("s3s::dto::{head}::from(value.to_owned())")) }
+                            else if head == "ContentType" { Some("match value.parse::<s3s::dto::ContentType>() { Ok(v) => v, Err(_) => return false }".to_owned()) }
                             else { None };
                         if let Some(e) = expr { arms.push_str(&format!("        \"{f}\" => {{ out.{f} = Some({e}); true }}\n")); }
                     }
